@@ -56,6 +56,9 @@ def site_of(d):
     if (k == "state" and g("why") in ("zero-line-reported", "zero-parameter-reported")
             and op in ("rmdims", "rmhigher", "fold", "mapdims", "telapse") and g("obj_is_target") == "1"):
         return "null-generator-rows-left(remove/fold/map_space_dimensions,time_elapse)"
+    if (k == "result" and op == "q2" and g("what") == "equals" and g("expected") == "bool_1" and g("got") == "bool_0"
+            and g("tgt_gm") == "1" and g("arg_gm") == "1" and g("tgt_ln") == "0" and g("arg_ln") == "0"):
+        return "operator==:both-generator-systems-minimized,no-lines,strong-minimal-form-not-canonical"
     if k == "ok" and g("obj_em") == "0" and g("obj_cu") == "0" and g("obj_gu") == "1" and g("obj_gm") == "0":
         return "OK()-false-after-update_congruences-from-unminimized-generators"
     return "-"
@@ -135,7 +138,10 @@ def minimise(chk, hx, judge, ctext, want):
 
 
 def run(chk):
-    chk.rule = ("three streams of histories over a pool of 4 Grid objects: a lazy-state x operator x query matrix (object driven into one of 12 "
+    chk.rule = ("four streams of histories over a pool of 4 Grid objects: TWINS (the same grid built by two routes -- equivalent congruence "
+                "systems with equalities rescaled and combined, equivalent generator systems, copies, invertible images and back, "
+                "permutations and back -- each driven into an independent lazy state, then ==, contains, strictly_contains, is_disjoint_from "
+                "in both argument orders, asked twice); a lazy-state x operator x query matrix (object driven into one of 12 "
                 "lazy states -- congruences / generators / both up to date, minimized or not --, ONE operator among the affine, modular, "
                 "dimension-changing (embed, project, remove, map with cycles, expand, fold, concatenate) and binary ones, non-invertible "
                 "images collapsing several parameters/lines at once, then two queries read immediately; the op x flags coverage is in "
